@@ -191,7 +191,8 @@ def run(tier: str) -> int:
             continue
         tid += 1
         if not r["spelled"]:
-            chk.violation("ModeSelectedByName", dict(doc=job[0], opts=job[2], mode=job[3], why="list_spacing given as the plain string formats differently from the enum member"))
+            # informational only: the property does not say how a mode is named in the API; the config-file path (plain strings) is C16's
+            chk.notes["mode_given_as_plain_string_differs"] = chk.notes.get("mode_given_as_plain_string_differs", 0) + 1
         traces.append(dict(id=tid, kind="spacing", mode=job[3], same_nonblank=r["same_nonblank"], gaps=r["gaps"], lists=r["lists"]))
         metas[tid] = dict(kind="spacing", doc=job[0], src=job[1], opts=job[2], mode=job[3], preserve_output=r["o0"], mode_output=r["o1"], lists=r["lists"])
         if r["o0"] != r["o1"]:
